@@ -23,13 +23,13 @@ ASSUMPTIONS = ["theorems are about the Lean model; they transfer to the code whe
 UNPROVED = [
     "C01.Entropy (information gain): the nan region is characterised exactly in terms of the model "
     "(information_gain_finite_partial: a number in [0,1] iff some backward beat error is finite) and on inputs by "
-    "harness/regions.py; the input-level sufficient condition 'strictly increasing estimated beats => finite' is "
-    "not proved",
+    "harness/regions.py; the input-level sufficient condition is proved (information_gain_finite_of_increasing: "
+    "strictly increasing estimated beats => a number in [0,1], any reference) and so is the necessary one "
+    "(information_gain_nan_needs_coincident_beats: nan on validated input => two consecutive estimated beats "
+    "coincide); exactly WHICH inputs with coincident estimated beats give nan is characterised on the model only",
     "C01.Entropy: all entropy-range theorems (information gain, MI, NMI, NCE/V, AMI) are about the real-number reading "
     "of the model's definitions; binary64 rounding (e.g. MI noise over the 1e-10 NMI floor, AMI with a denominator at "
     "rounding level) is covered by correspondence and the oracle only",
-    "C01.Entropy.emi_hypergeometric: the expected-MI loop equals the hypergeometric expectation over the loop's own "
-    "range of n_ij; that this range is the whole support (weights sum to 1) is not stated as a theorem",
 ]
 SUITES, _classifiers = SU.load_all()
 from suites import fixtures as _FX  # noqa: E402
